@@ -356,7 +356,7 @@ func checkC10(c *Ctx) {
 	for _, fk := range calib {
 		in, fl := c10Inputs([]c10Op{{"fail", fk, 1}})
 		obs, _ := runHistory(in, RunOpt{MaxDepth: 300, Timeout: 400 * time.Millisecond, ShortFor: c10ShortMark, Short: c10Short})
-		if _, _, failedOK, _ := c10Run(in, fl); !failedOK || !obs[len(c10Prelude)].Err {
+		if _ = fl; !obs[len(c10Prelude)].Err {
 			c.Infra(fmt.Errorf("the failing input of kind %s does not fail in a fresh session on the real interpreter (harness inputs out of date)", fk))
 			return
 		}
